@@ -107,12 +107,16 @@ fn prefix_clash(a: &str, b: &str) -> bool {
 fn gen_tree(t: &mut Tape) -> Vec<FileSpec> {
     let n_files = t.range(5, 60);
     // directories: each a child of the root or of an earlier directory
-    let n_dirs = t.below(9);
+    // a quarter of the trees are deep chains of directories: there a worker's
+    // deque holds a single item most of the time, which is where steals and
+    // the termination protocol of the parallel walker meet
+    let chain = t.chance(1, 4);
+    let n_dirs = if chain { 6 + t.below(12) } else { t.below(9) };
     let mut dirs: Vec<(String, usize)> = vec![(String::new(), 0)];
     for i in 0..n_dirs {
-        let parent = t.below(dirs.len());
+        let parent = if chain { dirs.len() - 1 } else { t.below(dirs.len()) };
         let (pp, depth) = dirs[parent].clone();
-        if depth >= 3 {
+        if !chain && depth >= 3 {
             continue;
         }
         let name = format!("{}{}", t.pick(DIRS), i);
@@ -1008,6 +1012,14 @@ pub fn check_stats(case: &Case) -> (Verdict, Stats) {
     for &n in &case.threads {
         for rep in 0..case.repeats {
             let (rgn, cmdn) = tree.rg(case, n, case.sort);
+            // every other repeat runs the binary built with the walker's yield
+            // hooks and a seeded timing jitter at its synchronisation points
+            let (rgn, cmdn) = if rep % 2 == 1 {
+                let j = (rep as u64) * 1000 + n as u64 * 7 + case.files.len() as u64;
+                (rgn.program(&crate::cli::rg_jitter_path()).env("VERIF_YIELD_JITTER", &j.to_string()), format!("VERIF_YIELD_JITTER={j} <rg built with --features ignore/verif-hooks> {cmdn}"))
+            } else {
+                (rgn, cmdn)
+            };
             let g = rgn.run();
             if g.timed_out || g.status.is_none() {
                 return (Verdict::Reject("multi-threaded run timed out or was killed"), stats);
